@@ -423,6 +423,8 @@ func (c *rlComp) Gen(rng *rand.Rand, idx int, tier string, targeted bool) hlib.H
 	nr := 1 + rng.Intn(3)
 	if rng.Intn(2) == 0 {
 		nr = 1
+	} else if rng.Intn(5) == 0 {
+		nr = 4 + rng.Intn(3) // per second, minute, ... : four to six rates at once
 	}
 	perm := rng.Perm(len(periodChoices))
 	used := map[int64]bool{}
